@@ -744,8 +744,19 @@ func TestGrid(t *testing.T) {
 	}
 	// a hang-up while the daemon is on its way (round twenty-two): the caller under nohup, in a group of its own
 	if si == 0 {
+		extra := []kase{}
 		for _, d := range []int{400, 900, 0} {
-			k := kase{delayMs: d, concurrent: 1, childCaller: true, hangup: d > 0, ignoresSigint: d == 900, bareArgv0: d != 400}
+			extra = append(extra, kase{delayMs: d, concurrent: 1, childCaller: true, hangup: d > 0, ignoresSigint: d == 900, bareArgv0: d != 400})
+		}
+		// daemons that are stopped and continued before Done() while the launcher is late, and daemons that stop themselves
+		// right after Done(): placed here as well, so that they do not depend on what a seed happens to draw (the
+		// self-test of round twenty-three found C20-agent19 and C20-agent20 out of seed 1's reach after new draws were added)
+		extra = append(extra,
+			kase{delayMs: 0, pauseMs: 300, concurrent: 1, childCaller: true, stopCont: true},
+			kase{delayMs: 0, pauseMs: 300, concurrent: 1, stopCont: true},
+			kase{delayMs: 5, pauseMs: 0, concurrent: 1, childCaller: true, stopAfterDone: true},
+			kase{delayMs: 5, pauseMs: 40, concurrent: 1, stopAfterDone: true})
+		for _, k := range extra {
 			if msg := runCase(k); msg != "" {
 				if strings.HasPrefix(msg, "harness:") {
 					rt.Inconclusivef(t, "%s: %s", k, msg)
